@@ -44,6 +44,7 @@ import Fbr.Lemmas.XportCThm
 import Fbr.Lemmas.XportCLog
 import Fbr.Lemmas.XportFuseThm
 import Fbr.Lemmas.XportFuseRd
+import Fbr.Thm.C01
 
 namespace Fbr.Thm.C04
 open Fbr.Xport
@@ -737,5 +738,43 @@ example : (∃ s, (⟨2, 64, 8, 64, false⟩ : FuseW).checkAvail 1 = .error (.pa
 /-- a chain accepted by the constructors -/
 example : ∃ b, fromChain [(1, 4096, 8192), (2, 65536, 4096)]
     [⟨false, 4100, 8⟩, ⟨false, 4200, 0⟩, ⟨true, 65536, 4096⟩, ⟨true, 5000, 1⟩] true = .ok b := ⟨_, rfl⟩
+
+
+/-! ### composition with the server model (C01)
+
+The server model treats the writer as a flat cursor of capacity `cfg.cap`; this theorem justifies
+that abstraction: `reply_fits_reply_buffer` (C01) gives `|reply| ≤ cfg.cap`, and
+`write_that_fits_succeeds` / `writes_are_concatenation` do the rest. -/
+
+/-- For every request, every file system, every layout of the reply descriptors (`b0`, any list of
+    non-overlapping buffers whose total room is at least the capacity the server assumed): after the
+    virtio writer stores the server's reply, the flat content of the reply descriptors is the reply
+    followed by the old content, and no byte outside the writable descriptors changed. -/
+theorem server_reply_lands_at_start_of_reply_area (cfg : Fbr.Srv.Cfg) (fs : Fbr.Srv.Call → Fbr.Srv.Ans)
+    (req : Fbr.Wire.Bytes) (st : St) (h : Start st) (hnd : (writable st).Nodup)
+    (hr : ∀ b ∈ st.readers, WF st.w.mem b.segs) (hw : ∀ b ∈ st.writers, WF st.w.mem b.segs)
+    (b0 : IoBufs) (hi : st.writers[0]? = some b0) (hroom : cfg.cap ≤ b0.available)
+    (hcap : cfg.cap < 2 ^ 32) (hfs : Fbr.Srv.FsSane fs) :
+    let msg := (Fbr.Srv.handle cfg fs req).out.area
+    let sf := exec st [Op.wr 0 msg]
+    flat sf.w.mem b0.segs = msg ++ (flat st.w.mem b0.segs).drop msg.length
+      ∧ (∀ a, a ∉ ahead st.writers → sf.w.mem.byteAt a = st.w.mem.byteAt a) := by
+  intro msg sf
+  have hfit : msg.length ≤ b0.available :=
+    Nat.le_trans (Fbr.Thm.C01.reply_fits_reply_buffer cfg fs req hcap hfs).2 hroom
+  have hmem : b0 ∈ st.writers := List.mem_of_getElem? hi
+  have hov : b0.consumed + total b0.segs < USIZE := h.2.2.2.2.2 b0 hmem
+  have hok := write_that_fits_succeeds b0 st.w msg hov hfit
+  have hplaced : writerIn b0 st.w (.wr 0 msg) = msg :=
+    ((writer_ops_place_what_they_report b0 st.w h.2.2.2.1 (hw b0 hmem) hov 0).1 msg _ hok).2
+  obtain ⟨bf, _, hflat, _, _, hframe⟩ :=
+    writes_are_concatenation st [] [Op.wr 0 msg] h hnd hr hw 0 b0 (by simpa [exec] using hi)
+      (by intro k hk; simp at hk)
+  have hp : placedAll (exec st []) 0 [Op.wr 0 msg] = msg := by
+    simp only [exec, placedAll, placed, Op.wh, hi, if_true, List.append_nil]
+    exact hplaced
+  rw [hp] at hflat
+  exact ⟨hflat, hframe⟩
+
 
 end Fbr.Thm.C04
